@@ -58,7 +58,7 @@ CLAIMS = {
              'rewritten after every batch; one seeded generator is plumbed to every object that '
              'draws and there is no hidden nondeterminism source.  Bit-identity itself is not '
              'decided.',
-        ref='DESIGN.md section 4 C05, rules P1 P2 P4 P5 P6 F3 F4', note=TRUST +
+        ref='DESIGN.md section 4 C05 and 10, rules P0 P1 P2 P4 P5 P6 F3 F4', note=TRUST +
         ' h5py round-trips values exactly; sklearn training is deterministic given its seed.'),
     'C06': dict(
         technique='typestate analysis on per-function CFGs (atomic-replace protocol), path '
@@ -81,7 +81,7 @@ CLAIMS = {
              'and dimensionality / unit_to_physical / physical_to_dictionary agree on free, fixed '
              'and link entries with one forward coordinate counter.  The numerical clauses '
              '(inverse CDF shape) are not decided.',
-        ref='DESIGN.md section 4 C15, rules T1 T7 R1 L1p K1 A1',
+        ref='DESIGN.md section 4 C15 and 10, rules T1 T1b T7 R1 L1p K1 A1 A1c F1p',
         note=TRUST),
 }
 
@@ -116,7 +116,7 @@ CLAIMS.update({
              'transform/predict is assigned on every path of compute/read/train; the classes a '
              'reader can rebuild cover those the creating code can store; update() rewrites what '
              'sample() mutates.',
-        ref='DESIGN.md section 4 C09, rules P1-P5', note=TRUST +
+        ref='DESIGN.md section 4 C09 and 10, rules P1-P5 P7 P8', note=TRUST +
         ' Exact array round-trip through HDF5 and the sklearn attribute sweep are trusted.'),
     'C10': dict(
         technique='who-may-call / who-may-write tables, CFG loop contract, def-use accounting',
@@ -164,7 +164,7 @@ CLAIMS.update({
              'and blobs, weights are rebuilt to the resampled length, nothing else reorders one '
              'of them; posterior() writes no state and draws only under equal_weight.  The '
              'stochastic-rounding arithmetic is not decided.',
-        ref='DESIGN.md section 4 C14, rules L5 F1', note=TRUST),
+        ref='DESIGN.md section 4 C14, rules L5 F1 Q4', note=TRUST),
     'C16': dict(
         technique='abstract interpretation: interval domain with open/closed ends and float-mod '
                   'transfer function; linear-form comparison of forward and inverse shift',
